@@ -413,3 +413,5 @@ func (r *R) msgType(name string) string {
 	}
 	return c.Val().ExactString() + ":uint64"
 }
+
+type ssaFunction = ssa.Function
